@@ -184,7 +184,9 @@ struct Extractor : public RecursiveASTVisitor<Extractor> {
     n += "(";
     for (unsigned i = 0; i < FD->getNumParams(); ++i) {
       if (i) n += ",";
-      n += typeStr(FD->getParamDecl(i)->getType());
+      // canonical types: the id must not depend on how a redeclaration spells them
+      // (`string*` under `using namespace std` vs `std::string*` in the header)
+      n += typeStr(FD->getParamDecl(i)->getType().getCanonicalType());
     }
     n += ")";
     if (const auto* MD = dyn_cast<CXXMethodDecl>(FD))
